@@ -205,6 +205,27 @@ fn validate_credential_token(token: &str) -> bool {
   let _ = JwtCredentialValidator::with_signature_verifier(accepting_verifier()).verify_signature::<_, Object>(&jwt, &docs, &JwsVerificationOptions::default()).map(|d| sweep_credential(&d.credential));
   let _ = identity_credential::validator::JwtCredentialValidatorUtils::extract_issuer_from_jwt::<CoreDID>(&jwt);
   let _ = identity_credential::validator::JwtCredentialValidatorUtils::extract_issuer_from_jwt::<IotaDID>(&jwt);
+  // the same token as a domain linkage credential, on its own and inside a DID configuration
+  {
+    use identity_credential::domain_linkage::DomainLinkageConfiguration;
+    use identity_credential::domain_linkage::JwtDomainLinkageValidator;
+    let dl = JwtDomainLinkageValidator::with_signature_verifier(EdDSAJwsVerifier::default());
+    let doc = &docs[0];
+    for domain in ["https://example.com", "https://example.com/path?q#f", "http://other.example:8080/"] {
+      let Ok(domain) = Url::parse(domain) else { continue };
+      for o in credential_options() {
+        if let Err(e) = dl.validate_credential(doc, &jwt, &domain, &o) {
+          use_all!(e.to_string(), format!("{e:?}"));
+        }
+        let configuration = DomainLinkageConfiguration::new(vec![jwt.clone(), jwt.clone()]);
+        if let Err(e) = dl.validate_linkage(doc, &configuration, &domain, &o) {
+          use_all!(e.to_string(), format!("{e:?}"));
+        }
+        let single = DomainLinkageConfiguration::new(vec![jwt.clone()]);
+        let _ = dl.validate_linkage(doc, &single, &domain, &o);
+      }
+    }
+  }
   acc
 }
 
@@ -297,6 +318,7 @@ fn ep_validate_presentation_claims(data: &[u8]) -> Ep {
 
 const CRED_CLAIMS: &str = r##"{"iss":"did:example:123","nbf":1262373804,"exp":1893456000,"jti":"https://example.edu/credentials/3732","sub":"did:example:ebfeb1f712ebc6f1c276e12ec21","vc":{"@context":"https://www.w3.org/2018/credentials/v1","type":["VerifiableCredential","UniversityDegreeCredential"],"credentialSubject":{"degree":{"type":"BachelorDegree"}},"credentialStatus":{"id":"did:example:123?index=5#rev","type":"RevocationBitmap2022","revocationBitmapIndex":"5"},"nonTransferable":true},"custom":1}"##;
 const CRED_CLAIMS_FULL: &str = r##"{"iss":"did:example:123","nbf":1262373804,"iat":1262373804,"exp":1893456000,"jti":"https://example.edu/credentials/3732","sub":"did:example:ebfeb1f712ebc6f1c276e12ec21","vc":{"@context":"https://www.w3.org/2018/credentials/v1","id":"https://example.edu/credentials/3732","type":["VerifiableCredential"],"issuer":"did:example:123","issuanceDate":"2010-01-01T19:23:24Z","expirationDate":"2030-01-01T00:00:00Z","credentialSubject":{"id":"did:example:ebfeb1f712ebc6f1c276e12ec21","a":1}}}"##;
+const DOMAIN_LINKAGE_CLAIMS: &str = r##"{"iss":"did:example:123","sub":"did:example:123","nbf":1262373804,"exp":1893456000,"vc":{"@context":["https://www.w3.org/2018/credentials/v1","https://identity.foundation/.well-known/did-configuration/v1"],"type":["VerifiableCredential","DomainLinkageCredential"],"credentialSubject":{"origin":"https://example.com"}}}"##;
 const PRES_CLAIMS: &str = r##"{"iss":"did:example:123","jti":"https://example.com/vp/1","nbf":1262373804,"iat":1262373804,"exp":1893456000,"aud":"https://aud.example/","vp":{"@context":"https://www.w3.org/2018/credentials/v1","type":"VerifiablePresentation","verifiableCredential":["eyJhbGciOiJFZERTQSJ9.e30.AAAA"]},"custom":{"a":1}}"##;
 const PRES_CLAIMS_DUP: &str = r##"{"iss":"did:example:123","jti":"https://example.com/vp/1","exp":1893456000,"vp":{"@context":"https://www.w3.org/2018/credentials/v1","id":"https://example.com/vp/1","holder":"did:example:123","type":"VerifiablePresentation","verifiableCredential":[]}}"##;
 
@@ -625,7 +647,7 @@ fn token_entry_points() -> Vec<EntryPoint> {
     e("JwtCredentialValidator::validate(token)", Kind::Token, ep_validate_credential_token, || {
       vec![sign_with_fixed_key(CRED_CLAIMS, CRED_HEADER).into_bytes(), sign_with_fixed_key(CRED_CLAIMS_FULL, CRED_HEADER).into_bytes()]
     }, &[""]),
-    e("JwtCredentialValidator::validate(claims)", Kind::Json, ep_validate_credential_claims, || sv(&[CRED_CLAIMS, CRED_CLAIMS_FULL]), &[""]),
+    e("JwtCredentialValidator::validate(claims)", Kind::Json, ep_validate_credential_claims, || sv(&[CRED_CLAIMS, CRED_CLAIMS_FULL, DOMAIN_LINKAGE_CLAIMS]), &[""]),
     e("JwtCredentialValidator::validate(header)", Kind::Json, ep_validate_credential_header, || {
       sv(&[CRED_HEADER, r##"{"alg":"EdDSA","kid":"did:example:123#key-1","nonce":"n","b64":true,"custom":[1]}"##, r##"{"alg":"EdDSA","kid":"#key-1"}"##])
     }, &[""]),
